@@ -191,7 +191,7 @@ NOTES = {
  'C13-4': 'missed at first: receiver-directed open / expand weight steps added',
  'C04-3': 'first run inconclusive (kernel-stubbed counterexample): native predicate with a re-stated compute_d added to the C04 mint obligations',
  'C04-4': 'missed by C04 at first (caught by C07): collect step added to C04',
- 'C03-3': '**NOT CAUGHT**: the change lowers the iteration budget of the D solver (256 -> 32); the solver is an uninterpreted function in C03 and its convergence is outside what the encoding reaches (stated in the evidence); the one-step loop-exit obligations hold for either budget',
+ 'C03-3': 'missed at first (the D solver is an uninterpreted function): iteration-budget obligation added - a solver-proved per-iteration bound (an iterate falls by less than a third) shows that a budget of 32 cannot reach the invariant of a pool inside the property range; that pool is run on the real contract and judged by the independent invariant',
  'C07-3': 'first run inconclusive (kernel-stubbed counterexample): native predicate over the real ledgers / burn messages added to the pair and trio swap-ledger obligations',
  'C15-3': 'would have been missed: trio swap slippage-argument obligation added before the run',
  'C15-4': 'would have been missed: pair deposit tolerance-argument obligation added before the run',
